@@ -29,8 +29,11 @@ pub trait Prop: Sync {
 pub mod c01;
 pub mod c02;
 pub mod c03;
+pub mod c04;
 pub mod c05;
 pub mod c15;
+pub mod c16;
+pub mod c17;
 pub mod c19;
 pub mod shapes;
 pub mod common;
@@ -40,8 +43,11 @@ pub fn lookup(id: &str) -> Option<&'static dyn Prop> {
         "C01" => Some(&c01::C01),
         "C02" => Some(&c02::C02),
         "C03" => Some(&c03::C03),
+        "C04" => Some(&c04::C04),
         "C05" => Some(&c05::C05),
         "C15" => Some(&c15::C15),
+        "C16" => Some(&c16::C16),
+        "C17" => Some(&c17::C17),
         "C19" => Some(&c19::C19),
         _ => None,
     }
